@@ -49,6 +49,8 @@ def _guard(fn):
             return {"verdict": "NOT-ENCODED", "detail": "anchor missing: %s" % e}
         except ksmt.Unsupported as e:
             return {"verdict": "NOT-ENCODED", "detail": "kernel uses a construct outside the KSMT subset: %s" % e}
+        except AttributeError as e:  # a private helper the slicer starts from was renamed or removed
+            return {"verdict": "NOT-ENCODED", "detail": "anchor missing: %s" % e}
 
     return run
 
@@ -575,7 +577,16 @@ def c16_index(rate, width):
         from engine import ksmt
         from praatio import audio
 
-        fdef = ksmt.func_ast(audio.Wav._getIndexAtTime)
+        helper = getattr(audio.Wav, "_getIndexAtTime", None)
+        if helper is None:  # private helper renamed: the one-argument private method of Wav that getFrames calls
+            import inspect
+
+            src = inspect.getsource(audio.Wav.getFrames)
+            cands = [f for n, f in vars(audio.Wav).items() if n.startswith("_") and not n.startswith("__") and callable(f) and ("self.%s(" % n) in src and len(inspect.signature(f).parameters) == 2]
+            if len(cands) != 1:
+                raise ksmt.AnchorMissing("the time -> byte index helper of Wav (was _getIndexAtTime)")
+            helper = cands[0]
+        fdef = ksmt.func_ast(helper)
         t = z3.FP("t", ksmt.F64)
 
         def make_env():
